@@ -3,6 +3,13 @@ import json, os
 ROOT = os.path.dirname(os.path.dirname(os.path.abspath(__file__)))
 
 CHECKS = {
+    "C02": dict(
+        category="exploration",
+        text="Metamorphic + reference-model runtime monitor: each generated program is built under 8 option sets (optimize / frontend_opt / post-optimiser on and off, the library path, CLI -O) per dialect; every build is run by clvmr on generated arguments and must return the reference value whenever the reference returns one, so any two builds agree and no switch loses a value. Whole (dialect, switch) combinations that are listed known findings are attributed only when the all-switches-off build of the same program is clean.",
+        design_ref="DESIGN.md §4 C02",
+        note="trusts clvmr and the reference interpreter; shipped programs are exercised in C05/C11",
+        technique="runtime metamorphic monitoring across build configurations against a reference model",
+    ),
     "C01": dict(
         category="exploration",
         text="Reference-model runtime monitor: randomly generated well-scoped programs (typed AST owned by the harness, rendered per dialect) and a 1..40-parameter sweep are compiled by the real compiler exactly as the CLI does, the output is run by clvmr on generated argument trees, and every result is compared with an independent call-by-value reference interpreter that delegates operators to clvmr. Listed known findings are re-established by pinned witnesses through the real binaries.",
